@@ -14,7 +14,19 @@ CHECK_DEADLOCK FALSE
 """
 
 
+QUEUE = """SPECIFICATION Spec
+CONSTANTS IPs <- %s MaxLookups = %d MaxVer = 3 Coalesce = %s
+INVARIANTS OneAnswerPerLookup NoPhantomAnswer ArmedWhenWaiting
+CHECK_DEADLOCK FALSE
+"""
+
+
 def run(ctx):
+    # the loop between IpSink and InfoSource with a consumer that is behind (design level; bound to the code by the lazy-consumer cases)
+    ctx.tlc_check("MCK8sQueue", ctx.write_cfg("K8sAnswerQueue.cfg", QUEUE % ("IP2", 5 if ctx.tier == "quick" else 6, "FALSE")), label="answer queue as coded", timeout=3000)
+    bad = ctx.tlc_check("MCK8sQueue", ctx.write_cfg("K8sAnswerQueue.dev.cfg", QUEUE % ("IP2", 4, "TRUE")), label="lookups coalesced per IP (must fail)", must_pass=False)
+    if bad.violated != "OneAnswerPerLookup":
+        raise vlib.MachineryError("vacuity: coalescing lookups not refuted")
     plans = [("n2x-4", "N2", "IP1", 4, None, 1), ("n2x-5", "N2", "IP1", 5, None, 12), ("sim9", "N3", "IP2", 9, "num=%d" % 2500, 1)]
     if ctx.tier == "thorough":
         plans = [("n2x-5", "N2", "IP1", 5, None, 1), ("n2xy-4", "N2", "IP2", 4, None, 1), ("sim12", "N3", "IP2", 12, "num=60000", 1)]
